@@ -153,7 +153,7 @@ PRead == /\ pst \in {"wait", "copy"} /\ uwire # <<>>
                       /\ pst' = "aborted" /\ phdr' = 0 /\ pbuf' = <<>>
                       /\ \E keep \in {0, Len(pbuf)}, hk \in BOOLEAN :   \* what was buffered (header, data) may or may not still go out
                            cwire' = IF cgone THEN <<>>
-                                    ELSE cwire \o (IF phdr # 0 /\ (keep > 0 \/ hk) THEN <<HdrM(phdr)>> ELSE <<>>)
+                                    ELSE cwire \o (IF phdr # 0 /\ (keep > 0 \/ hk \/ ForgeEnd) THEN <<HdrM(phdr)>> ELSE <<>>)
                                                \o SubSeq(pbuf, 1, keep)
                                                \o <<IF ForgeEnd THEN EndM ELSE AbortM>>
                       /\ uconn' = "byup"
@@ -248,7 +248,7 @@ Spec == Init /\ [][Next]_vars /\ Fair
 
 \* ---------------------------------------------------------------- properties
 PStates == {"idle", "start", "wait", "copy", "done", "aborted", "answered", "canceled"}
-TypeOK == /\ sc \in Scenarios /\ ScOK(sc)
+TypeOK == /\ ScOK(sc)
           /\ ust \in {"idle", "req", "slow", "hdr", "end", "cut", "rst", "dead"}
           /\ pst \in PStates /\ cend \in {"open", "complete", "aborted"}
           /\ uconn \in {"none", "open", "byproxy", "byup"} /\ ost \in {"none", "started", "done"}
@@ -286,11 +286,19 @@ NoLateRequest == [][cgone => ureq' = ureq]_vars
 \* what the client is OWED once everything that must happen has happened (the proxy's fair actions are
 \* disabled): with flushing in force everything written; without, everything but less than one buffer
 Calm == ~ENABLED PDial /\ ~ENABLED PRead /\ ~ENABLED PFlushDue /\ ~ENABLED PTimeout /\ ~ENABLED PCancel /\ ~ENABLED CRead
+\* the same without ENABLED (cheap to evaluate; CalmIsCalmS is checked by TLC)
+CalmS == /\ pst # "start"
+         /\ ~(pst \in {"wait", "copy"} /\ uwire # <<>>)
+         /\ ~((Eff # "zero" \/ Weight(pbuf) >= BufCap) /\ CanFlush)
+         /\ ~(pst = "wait" /\ sc.rht /\ uwire = <<>> /\ ust = "slow")
+         /\ ~(cgone /\ pst \in {"start", "wait", "copy"} /\ ~KeepUpstream)
+         /\ ~(cwire # <<>> /\ ~cgone /\ cend = "open")
+CalmIsCalmS == Calm = CalmS
 Alive == ~cgone /\ pst \in {"copy", "done"} /\ ust \in {"hdr", "end"}
 OwedBytes == IF Flushing \/ ust = "end" THEN Weight(sent)
              ELSE IF Weight(sent) - (BufCap - 1) > 0 THEN Weight(sent) - (BufCap - 1) ELSE 0
 OwedHdr == uhdr /\ (Flushing \/ ust = "end" \/ OwedBytes > 0)
-CalmDelivered == Calm /\ Alive => /\ Weight(rcvd) >= OwedBytes
+CalmDelivered == CalmS /\ Alive => /\ Weight(rcvd) >= OwedBytes
                                   /\ (OwedHdr => chdr = 200)
                                   /\ (ust = "end" => cend = "complete")
 
